@@ -266,6 +266,8 @@ type c06World struct {
 	node *corev1.Node
 	book *c06Book
 	tag  string
+	// share of pods without cpu binding among the requests of this world
+	numaOnlyPct int
 }
 
 func c06NewWorld(c *kit.Case, nd c06Node, tag string) *c06World {
@@ -301,8 +303,9 @@ func (w *c06World) check(where string) {
 // the ledger unit does and, on success, commits it with Update (as Reserve does) and books a deep copy.
 func (w *c06World) allocate(uid types.UID) bool {
 	c, r, tp, topo := w.c, w.c.R, w.nd.tp, w.nd.tp.topo
-	cpuBind := !r.Pct(20)
+	cpuBind := !r.Pct(w.numaOnlyPct)
 	ncpu := r.Range(1, maxInt(1, topo.NumCPUs/3))
+	exactFill := cpuBind && r.Pct(15)
 	bind := kit.Pick(r, c06BindPolicies)
 	required := r.Pct(30) && (bind == schedulingconfig.CPUBindPolicyFullPCPUs || bind == schedulingconfig.CPUBindPolicySpreadByPCPUs)
 	excl := kit.Pick(r, c06ExclPolicies)
@@ -322,7 +325,7 @@ func (w *c06World) allocate(uid types.UID) bool {
 	} else {
 		ncpu, required = 0, false
 		opts = &ResourceOptions{cpuBindPolicy: bind, topologyOptions: w.tom.GetTopologyOptions(w.name)}
-		reqs = corev1.ResourceList{corev1.ResourceCPU: *resource.NewMilliQuantity(int64(kit.Pick(r, []int{1, 250, 500, 1000, 1500, 2500, 4000})), resource.DecimalSI)}
+		reqs = corev1.ResourceList{corev1.ResourceCPU: *resource.NewMilliQuantity(int64(kit.Pick(r, []int{1000, 1000, 1000, 2000, 3000, 3000, 5000, 1, 250, 500, 1500, 2500})), resource.DecimalSI)}
 	}
 	if mem > 0 {
 		reqs[corev1.ResourceMemory] = *resource.NewQuantity(mem, resource.BinarySI)
@@ -353,6 +356,15 @@ func (w *c06World) allocate(uid types.UID) bool {
 		liveAllocs = append(liveAllocs, w.book.allocs[u])
 	}
 	modelFree := c06ModelFree(w.nd.numaRes, liveAllocs)
+	if exactFill && len(hintBits) > 0 {
+		if n := c06WholeCPUsFree(modelFree, hintBits); n > 0 {
+			ncpu = n
+			opts.numCPUsNeeded = n
+			reqs[corev1.ResourceCPU] = *resource.NewQuantity(int64(n), resource.DecimalSI)
+			opts.requests = reqs.DeepCopy()
+			opts.originalRequests = reqs.DeepCopy()
+		}
+	}
 	alloc, status := w.rm.Allocate(w.node, pod, opts)
 	_, existing := w.book.allocs[uid]
 	c.Op("%s allocate %s cpuBind=%v cpus=%d reqs=%s bind=%s required=%v excl=%s hint=%v (existing=%v) -> ok=%v %s", w.tag, uid, cpuBind, ncpu, c06RL(reqs), bind, required, excl, hintBits, existing, status.IsSuccess(), c06AllocStr(alloc))
@@ -420,7 +432,9 @@ func TestVerifC06LedgerRestart(t *testing.T) {
 			c.Op("%s", nd)
 			c06CountTopo(c, nd.tp)
 			// ---- previous incarnation
+			numaOnlyPct := kit.Pick(r, []int{0, 0, 20, 20, 40})
 			w0 := c06NewWorld(c, nd, "[before restart]")
+			w0.numaOnlyPct = numaOnlyPct
 			w0.installTopology()
 			npods := r.Range(3, 8)
 			uids := make([]types.UID, npods)
@@ -442,6 +456,7 @@ func TestVerifC06LedgerRestart(t *testing.T) {
 			}
 			// ---- restart
 			w := c06NewWorld(c, nd, "[restarted]")
+			w.numaOnlyPct = numaOnlyPct
 			c.Op("---- restart: %d running pods", len(running))
 			kit.Shuffle(r, running)
 			// 30%: a second node of the cluster (same hardware) on the same manager; its pods reach the manager
